@@ -43,6 +43,8 @@ def problem(m, n, cond, seed):
     U = E.ulib(m)[int(rng.integers(0, len(E.ulib(m))))][1]
     V = E.ulib(n)[int(rng.integers(0, len(E.ulib(n))))][1]
     s = [cond ** (-i / max(k - 1, 1)) for i in range(k)]
+    sc = 2.0 ** ((0, -30, 20)[seed % 3])          # exact power-of-two scaling: the pseudoinverse scales by 1/sc
+    s = [x * sc for x in s]
     A = E.usv(U, s, V)
     P = E.pinv_usv(U, s, V)
     return A, P, s
